@@ -121,13 +121,13 @@ func (mediaType *MediaType) Validate(ctx context.Context, opts ...ValidationOpti
 	if mediaType == nil {
 		return nil
 	}
+	if mediaType.Example != nil && mediaType.Examples != nil {
+		return errors.New("example and examples are mutually exclusive")
+	}
+
 	if schema := mediaType.Schema; schema != nil {
 		if err := schema.Validate(ctx); err != nil {
 			return err
-		}
-
-		if mediaType.Example != nil && mediaType.Examples != nil {
-			return errors.New("example and examples are mutually exclusive")
 		}
 
 		if vo := getValidationOptions(ctx); !vo.examplesValidationDisabled {
